@@ -20,7 +20,10 @@ Pipeline (every step fails loudly, nothing is guessed):
      registers, same immediates, lea target = the label position, call relocation = the callback);
   6. a probe program calls the two make_context functions on a known buffer for 64 consecutive
      stack addresses; the results are fitted to  rsp = ((stack - sub) / align) * align, entry word
-     stored at rsp + off; the raw samples are emitted too and re-checked in Lean by `decide`.
+     stored at rsp + off; the raw samples are emitted too and re-checked in Lean by `decide`;
+  7. $VERIF_BUILD/translate/ctx_templates.h: the four templates re-emitted as AT&T text FROM THE
+     PARSED LISTS, for the hardware bench (harness/ctx_probe.c -DCTXP_BENCH) whose runs are
+     compared with the Lean semantics executing the same lists (drv_x86).
 """
 import os
 import re
@@ -690,12 +693,11 @@ def fit(samples, what):
                 sols.append((sub, align))
     if not sols:
         fail("%s: results are not of the form ((stack - c) & ~(2^k - 1)): %s" % (what, samples[:6]))
-    # the family is not unique only through sub ~ sub' when both give identical functions on all
-    # integers (impossible for sub < align) -- keep the canonical one with sub < align
-    canon = [(s, a) for s, a in sols if s < a or a == 1]
-    if len(canon) != 1 and not (len(canon) > 1 and all(a == 1 for _, a in canon)):
-        fail("%s: ambiguous fit %s" % (what, canon))
-    return canon[0]
+    # 64 consecutive samples determine (sub, align) uniquely unless no rounding step falls into the
+    # window (align too large): that is reported, not guessed
+    if len(sols) != 1:
+        fail("%s: ambiguous fit %s" % (what, sols[:6]))
+    return sols[0]
 
 
 def extract_mkctx(d):
@@ -804,6 +806,52 @@ def emit(t, mk):
     return "\n".join(L) + "\n"
 
 
+BENCH_CB = "ctxp_bench_cb"
+
+
+def att(i):
+    """parsed instruction -> AT&T text (used by the hardware bench: what runs on the CPU is what was parsed)"""
+    t = i[0]
+    if t in ("subRsp", "addRsp"):
+        return "%s $%d,%%rsp" % (t[:3], i[1])
+    if t in ("push", "pop"):
+        return "%s %%%s" % (t, i[1])
+    if t == "leaLabel":
+        return "lea %df(%%rip),%%%s" % (i[2], i[1])
+    if t == "storeRsp":
+        return "mov %%rsp,(%%%s)" % i[1]
+    if t == "loadRsp":
+        return "mov (%%%s),%%rsp" % i[1]
+    if t == "call":
+        return "call " + BENCH_CB
+    if t == "callReg":
+        return "call *%%%s" % i[1]
+    if t == "jmpReg":
+        return "jmp *%%%s" % i[1]
+    if t == "label":
+        return "%d:" % i[1]
+    raise AssertionError(i)
+
+
+def emit_bench_header(t):
+    """C header with the four templates re-emitted from the parsed lists, for harness/ctx_probe.c -DCTXP_BENCH"""
+    L = ["/* GENERATED by translate/asm_extract.py: the parsed context-switch templates, re-emitted */"]
+    for kind, _ in KINDS:
+        d = t[kind]
+        regs = [x for i in d["flat"] for x in i[1:2] if isinstance(x, str)] + [r for _, r in d["roles"]]
+        if any(r.startswith("opnd") for r in regs):
+            L.append("#error \"template %s has an operand that is not pinned to a register: no hardware bench\"" % kind)
+            continue
+        if any(i[0] == "callReg" for i in d["flat"]):
+            L.append("#error \"template %s calls through a register: no hardware bench\"" % kind)
+            continue
+        L.append("#define CTX_TMPL_%s %s" % (kind, " ".join('"  %s\\n"' % att(i) for i in d["flat"])))
+        for role, r in d["roles"]:
+            L.append("#define CTX_%s_%s %d" % (role.upper(), kind, GPR.index(r)))
+        L.append("#define CTX_HASCALL_%s %d" % (kind, 1 if any(i[0] == "call" for i in d["flat"]) else 0))
+    return "\n".join(L) + "\n"
+
+
 def extract():
     d = os.path.join(common.BUILD, "translate")
     os.makedirs(d, exist_ok=True)
@@ -833,6 +881,7 @@ def extract():
                 if "ud2" not in rest:
                     fail("%s: compiled code has no ud2 after the final jump" % kind)
     mk = extract_mkctx(d)
+    common.write_if_changed(os.path.join(d, "ctx_templates.h"), emit_bench_header(t))
     return t, mk
 
 
